@@ -23,8 +23,12 @@ def hb(b):
 # reference: owners are plain byte sequences, views are windows into their root owner
 # ----------------------------------------------------------------------------------------------------
 class Own:
-    def __init__(self, dyn, e, data):
-        self.dyn, self.e, self.b = dyn, e, bytearray(data)
+    """stor: does the owner hold storage?  False = released (newly initialised: array == NULL, byte_alloc == 0), True = it was grown to
+    a positive count since its last reset-equivalent (truncate, pop and rewind (n > 0) keep the storage: "does not free elements",
+    "without reallocating memory", the popped pointer "will be valid"), None = created with a count of 0 by init_count (a zero-byte
+    allocation: whether that is a block is the allocator's business).  Nothing here knows the allocation policy (sizes, powers of two)."""
+    def __init__(self, dyn, e, data, stor=False):
+        self.dyn, self.e, self.b, self.stor = dyn, e, bytearray(data), stor
     own = True
 
     @property
@@ -123,11 +127,11 @@ class Ref:
         if op == "init":
             dyn, h, e = A(1), A(2), A(3)
             self.free(h); need(1 <= e <= MAXB)
-            self.a[h] = Own(bool(dyn), e, b"")
+            self.a[h] = Own(bool(dyn), e, b"", False)
         elif op == "initc":
             dyn, h, e, n, d = A(1), A(2), A(3), A(4), B(5)
             self.free(h); need(1 <= e and 0 <= n and len(d) == n * e)
-            self.a[h] = Own(dyn in (1, 2), e, d)
+            self.a[h] = Own(dyn in (1, 2), e, d, True if n > 0 else None)
         elif op == "view":
             dyn, h, src, o, l = A(1), A(2), A(3), A(4), A(5)
             self.free(h); x = self.get(src)
@@ -145,30 +149,42 @@ class Ref:
             self.mkview(bool(dyn), h, src, bo, e, n)
         elif op == "reset":
             h = A(1); x = self.get(h); self.not_rooted_if_owner(h)
-            self.a[h] = Own(x.dyn, x.e, b"")
+            self.a[h] = Own(x.dyn, x.e, b"", False)     # "turns a view into a newly initialized array"; frees an owner's elements
         elif op == "destroy":
             h = A(1); x = self.get(h); need(x.dyn); self.not_rooted_if_owner(h)
             del self.a[h]
         elif op == "drop":
             h = A(1); x = self.get(h); need(not x.dyn); self.not_rooted_if_owner(h)
             del self.a[h]
+        elif op == "abandon":
+            # a static struct is forgotten without any call: a view, or an owner that a reset-equivalent has released
+            h = A(1); x = self.get(h); need(not x.dyn); self.not_rooted_if_owner(h)
+            need((not x.own) or x.stor is False, "abandoned with storage")
+            del self.a[h]
         elif op == "trunc":
             h = A(1); self.owner_free(h); self.resize_wr(h, 0, 0, b"")
         elif op == "rewind":
             h, n = A(1), A(2); x = self.get(h)
             need(0 <= n <= x.n); self.resize_wr(h, n, n * x.e, b"")
+            if x.own and n == 0:
+                x.stor = False          # "a new_count of zero specified for an array that is not a view: sc_array_reset is equivalent"
         elif op == "resize":
             h, n, d = A(1), A(2), B(3); x = self.get(h)
             need(len(d) == max(0, n - x.n) * x.e)
             self.resize_wr(h, n, min(x.n, n) * x.e, d)
+            if x.own:
+                x.stor = n > 0          # "If it is zero and the array is not a view, the effect equals sc_array_reset"
         elif op == "pushc":
             h, k, d = A(1), A(2), B(3); x = self.get(h); self.owner_free(h)
             need(k >= 0 and len(d) == k * x.e)
             self.resize_wr(h, x.n + k, x.n * x.e, d)
+            if k > 0:
+                x.stor = True
         elif op == "push":
             h, d = A(1), B(2); x = self.get(h); self.owner_free(h)
             need(len(d) == x.e)
             self.resize_wr(h, x.n + 1, x.n * x.e, d)
+            x.stor = True
         elif op == "pop":
             h = A(1); x = self.get(h); self.owner_free(h); need(x.n > 0)
             last = self.rd(h, (x.n - 1) * x.e, x.e)
@@ -178,6 +194,7 @@ class Ref:
             d, s = A(1), A(2); x, y = self.get(d), self.get(s)
             self.owner_free(d); need(d != s and x.e == y.e)
             self.resize_wr(d, y.n, 0, self.content(s))
+            x.stor = y.n > 0            # "dest ... will be resized": to zero = reset
         elif op == "copyinto":
             d, o, s = A(1), A(2), A(3); x, y = self.get(d), self.get(s)
             need(x.e == y.e and 0 <= o and o + y.n <= x.n)
@@ -232,6 +249,8 @@ class Ref:
             need(all(t < T for t in ty) and ty == sorted(ty), "split needs type-sorted input")
             offs = [sum(1 for t in ty if t < k) for k in range(T + 1)]
             self.resize_wr(o, T + 1, 0, b"".join(struct.pack("<Q", v) for v in offs))
+            if y.own:
+                y.stor = True
         elif op == "permute":
             h, p, keep = A(1), A(2), A(3); x, y = self.get(h), self.get(p)
             need(y.e == 8 and y.n == x.n and self.root(h)[0] != self.root(p)[0])
@@ -255,6 +274,45 @@ class Ref:
             parts.append("%x:%x:%x:%s" % (h, x.e, x.n, hb(self.content(h))))
         return " ;" + "".join(" " + p for p in parts)
 
+    def released_state(self):
+        """what the documentation fixes about storage: (number of dynamically created structs, {handle: "v" | False | True | None})"""
+        return (sum(1 for x in self.a.values() if x.dyn), dict((h, x.stor if x.own else "v") for h, x in self.a.items()))
+
+
+def judge_released(extra, want):
+    """extra: the harness' suffix "<status> h:K:P:B ..."; want: Ref.released_state ().  Returns None or a description of the difference."""
+    ndyn, st = want
+    tok = extra.split()
+    try:
+        status = int(tok[0])
+        got = dict((int(t.split(":")[0], 16), t.split(":")[1:]) for t in tok[1:])
+    except (ValueError, IndexError):
+        return "unreadable released-state suffix [%s]" % extra[:80]
+    if sorted(got) != sorted(st):
+        return "live handles %s, expected %s" % (sorted(got), sorted(st))
+    blocks = ndyn
+    for h in sorted(st):
+        k, p, b = got[h]
+        w = st[h]
+        if w == "v":
+            if k != "v":
+                return "array %x should be a view and is an owner" % h
+            continue
+        if k != "o":
+            return "array %x should be an owner and is a view" % h
+        if w is False and (p, b) != ("N", "Z"):
+            return ("array %x was released by a documented reset-equivalent and must be a newly initialised array: array %s NULL, byte_alloc %s 0"
+                    % (h, "==" if p == "N" else "!=", "==" if b == "Z" else "!="))
+        if w is True and (p, b) != ("P", "A"):
+            return "array %x holds elements or kept storage: array %s NULL, byte_alloc %s 0" % (h, "==" if p == "N" else "!=", "==" if b == "Z" else "!=")
+        if w is None and b != "Z":
+            return "array %x was created with 0 elements: byte_alloc != 0" % h
+        blocks += 1 if p == "P" else 0
+    if status != blocks:
+        return ("sc_memory_status is %d above the start of the history; live blocks: %d created structs + %d arrays with storage = %d"
+                % (status, ndyn, blocks - ndyn, blocks))
+    return None
+
 
 # ----------------------------------------------------------------------------------------------------
 # generator of legal histories
@@ -274,12 +332,19 @@ def pick_esize(r, maxbytes, pbig=0.3):
     return r.choice(ESIZES)
 
 
+class ExpList(list):
+    """the expected output lines of a history; .st = the expected released states, line by line"""
+    st = None
+
+
 class Gen:
     def __init__(self, rng, maxbytes, maxops):
         self.rng, self.maxbytes, self.maxops = rng, maxbytes, maxops
         self.ref = Ref()
         self.ops = []       # token lists
-        self.exp = []       # expected output lines
+        self.exp = ExpList()    # expected output lines
+        self.expst = []         # expected released state per line (judge_released)
+        self.exp.st = self.expst
         self.alpha = rng.choice([2, 3, 4, 16, 256])     # byte alphabet: small ones give duplicates / equal arrays
 
     def rb(self, n):
@@ -298,6 +363,7 @@ class Gen:
             return False
         self.ops.append(t)
         self.exp.append(res + self.ref.observe())
+        self.expst.append(self.ref.released_state())
         return True
 
     def free_handle(self):
@@ -339,6 +405,64 @@ class Gen:
             return None
         return h
 
+    def empty_it(self, h):
+        """bring a view-free owner to a small count or to zero WITHOUT releasing its storage: truncate, pops, rewind (n > 0), nothing"""
+        r = self.rng
+        x = self.ref.a[h]
+        H = "%x" % h
+        k = r.choice(["trunc", "trunc", "pop", "pop", "rewind", "none", "same"])
+        if k == "trunc":
+            self.emit(["trunc", H])
+        elif k == "pop" and x.n <= 12:
+            for _ in range(x.n):
+                self.emit(["pop", H])
+        elif k == "pop" or k == "rewind":
+            self.emit(["rewind", H, "%x" % r.choice([1, 1, 2, max(1, x.n // 2)])]) if x.n >= 1 else None
+            if r.random() < 0.5:
+                for _ in range(min(2, self.ref.a[h].n)):
+                    self.emit(["pop", H])
+        if k == "same" or r.random() < 0.25:
+            # calls that leave the count as it is: resize to the current count, push_count (0), rewind to the current count
+            x = self.ref.a[h]
+            if x.n > 0 or r.random() < 0.5:
+                self.emit(r.choice([["resize", H, "%x" % x.n, "-"], ["pushc", H, "0", "-"], ["rewind", H, "%x" % x.n]])) if x.n > 0 else \
+                    self.emit(r.choice([["pushc", H, "0", "-"], ["trunc", H]]))
+
+    def release_it(self, h, how=None):
+        """release a view-free owner by one of the documented reset-equivalents; returns the name of the way or None"""
+        r = self.rng
+        x = self.ref.a[h]
+        H = "%x" % h
+        how = how or r.choice(["resize0", "resize0", "rewind0", "reset", "copyempty", "copyempty"])
+        if how == "resize0":
+            ok = self.emit(["resize", H, "0", "-"])
+        elif how == "rewind0":
+            ok = self.emit(["rewind", H, "0"])
+        elif how == "reset":
+            ok = self.emit(["reset", H])
+        else:
+            # sc_array_copy from an array without elements (an owner, a released one, an empty view)
+            src = self.pick(lambda g, y: g != h and y.e == x.e and y.n == 0) if r.random() < 0.5 else None
+            tmp = None
+            if src is None:
+                tmp = src = self.free_handle()
+                if src is None:
+                    return None
+                if r.random() < 0.3 and x.n > 0:
+                    self.emit(["view", r.randrange(2), "%x" % src, H, "%x" % r.randrange(x.n + 1), "0"])     # empty view of h itself
+                elif r.random() < 0.5:
+                    self.emit(["init", r.randrange(2), "%x" % src, "%x" % x.e])
+                else:
+                    self.emit(["initc", r.randrange(4), "%x" % src, "%x" % x.e, "0", "-"])
+            if tmp is not None and not self.ref.a[tmp].own:
+                # a view of h: kill it first is not possible (copy needs it); copying into an owner with live views is illegal
+                self.kill(tmp)
+                return None
+            ok = self.emit(["copy", H, "%x" % src])
+            if tmp is not None:
+                self.kill(tmp)
+        return how if ok else None
+
     def kill(self, h):
         x = self.ref.a[h]
         return self.emit(["destroy" if x.dyn else "drop", "%x" % h] + (["%x" % self.rng.randrange(2)] if x.dyn else []))
@@ -373,7 +497,7 @@ class Gen:
                 ["set"] * 4 + ["index"] * 2 + ["memset"] + ["view"] * 4 + ["reshape"] * 2 + ["data"] * 2 + ["copy"] * 2 + \
                 ["copyinto"] * 2 + ["move"] * 3 + ["sort"] * 2 + ["uniq"] * 2 + ["issorted"] + ["isequal"] * 2 + ["bsearch"] * 2 + \
                 ["checksum"] + ["isperm"] + ["split"] * 2 + ["permute"] * 2 + ["killview"] * 6 + ["destroy"] * 2 + ["drop"] + \
-                ["viewcycle"] * 4 + ["permcase"] * 2 + ["sortcase"] * 2
+                ["viewcycle"] * 4 + ["permcase"] * 2 + ["sortcase"] * 2 + ["release"] * 7
         if nlive < 2:
             kinds += ["create"] * 30
         elif nlive < 7:
@@ -621,6 +745,54 @@ class Gen:
             self.emit([r.choice(["reset", "isperm"]), H(h)])
             x = ref.a[h]
             return self.emit(["destroy" if x.dyn else "drop", H(h)] + (["0"] if x.dyn else []))
+        if k == "release":
+            # empty an owner without freeing (truncate / pops / rewind to a small count), THEN release it by a reset-equivalent;
+            # afterwards: abandon the struct and initialise it again, reuse it, or destroy it
+            h = self.pick(lambda h, x: own(h, x) and not x.dyn) if r.random() < 0.7 else self.pick(own)
+            if h is None or r.random() < 0.3:
+                h = self.free_handle()
+                if h is None:
+                    return False
+                e = pick_esize(r, self.maxbytes, 0.4)
+                n = r.choice([1, 2, 3, 5])
+                if r.random() < 0.6:
+                    self.emit(["init", r.randrange(3) // 2, H(h), H(e)])
+                    for _ in range(min(n, max(1, self.maxbytes // e))):
+                        self.emit(["push", H(h), hb(self.rb(e))])
+                else:
+                    n = min(n, max(1, self.maxbytes // e))
+                    self.emit(["initc", r.choice([0, 0, 3, 1, 2]), H(h), H(e), H(n), hb(self.rb(n * e))])
+                if h not in ref.a:
+                    return False
+            self.empty_it(h)
+            x = ref.a[h]
+            if x.dyn and r.random() < 0.3:
+                return self.emit(["destroy", H(h), "%x" % r.randrange(2)])
+            how = self.release_it(h)
+            if how is None:
+                return False
+            x = ref.a[h]
+            k2 = r.random()
+            if not x.dyn and k2 < 0.45:
+                # the struct is a newly initialised array now: it may be forgotten and set up again (any creator, any element size)
+                self.emit(["abandon", H(h)])
+                e = pick_esize(r, self.maxbytes, 0.4)
+                if r.random() < 0.6:
+                    self.emit(["init", "0", H(h), H(e)])
+                else:
+                    n = r.choice([0, 1, 2])
+                    self.emit(["initc", r.choice([0, 3]), H(h), H(e), H(n), hb(self.rb(n * e))])
+                if r.random() < 0.5 and h in ref.a and len(ref.a[h].b) + ref.a[h].e <= self.maxbytes:
+                    self.emit(["push", H(h), hb(self.rb(ref.a[h].e))])
+            elif k2 < 0.7:
+                if len(x.b) + x.e <= self.maxbytes:
+                    self.emit(["push", H(h), hb(self.rb(x.e))])        # reuse after the release
+                if r.random() < 0.5:
+                    self.empty_it(h)
+                    self.release_it(h)
+            elif k2 < 0.8 and not x.dyn:
+                self.emit(["abandon", H(h)])
+            return True
         if k == "permcase":
             # permute (both keepperm values, twice on the same object) of a fresh array of any size class with >= 2 elements
             a = self.fresh_case_array(2, 7)
@@ -696,7 +868,22 @@ class Gen:
             self.emit(["destroy" if x.dyn else self.rng.choice(["drop", "reset"]), H(h)] + (["0"] if x.dyn else []))
         for h in sorted(ref.a):
             x = ref.a[h]
-            self.emit(["destroy", H(h), "1"] if x.dyn else ["reset", H(h)])
+            # every array is released by a randomly chosen documented way: a dynamically created one ends with sc_array_destroy
+            # (directly, or after being emptied and / or released), a struct set up in place by a reset-equivalent and is then forgotten
+            k = self.rng.random()
+            if x.dyn:
+                if k < 0.3:
+                    self.empty_it(h)
+                elif k < 0.5:
+                    self.empty_it(h)
+                    self.release_it(h)
+                self.emit(["destroy", H(h), "%x" % self.rng.randrange(2)])
+            else:
+                if k < 0.5:
+                    self.empty_it(h)
+                if self.release_it(h) is None or h not in ref.a or ref.a[h].stor is not False:
+                    self.emit(["reset", H(h)])
+                self.emit(["abandon", H(h)])
 
     def run(self):
         tries = 0
@@ -797,6 +984,43 @@ def scripted_sizes():
             must(["split", "0", "3", "4"])
             g.kill(3)
             g.kill(0)
+        # release: empty an owner WITHOUT freeing, then each documented reset-equivalent; the struct is forgotten and set up again
+        el = lambda i: hb(bytes([(i * 29 + j * 7 + 3) & 255 for j in range(e)]))
+        for how in ("resize0", "rewind0", "reset", "copyempty"):
+            for empt in ("trunc", "pop", "rewind1", "none"):
+                must(["init", 0, "4", H(e)])
+                must(["push", "4", el(0)])
+                must(["push", "4", el(1)])
+                if empt == "trunc":
+                    must(["trunc", "4"])
+                elif empt == "pop":
+                    must(["pop", "4"])
+                    must(["pop", "4"])
+                elif empt == "rewind1":
+                    must(["rewind", "4", "1"])
+                    must(["pop", "4"])
+                if how == "copyempty":
+                    must(["init", 0, "5", H(e)])
+                    must(["copy", "4", "5"])
+                    must(["abandon", "5"])
+                else:
+                    must({"resize0": ["resize", "4", "0", "-"], "rewind0": ["rewind", "4", "0"], "reset": ["reset", "4"]}[how])
+                must(["abandon", "4"])
+        # the same on a dynamically created array, reused after the release; resize to the unchanged count in between
+        must(["init", 1, "4", H(e)])
+        for how in ("resize0", "rewind0", "reset", "copyempty"):
+            must(["pushc", "4", "2", hb(bytes.fromhex(el(2)) + bytes.fromhex(el(3)))])
+            must(["resize", "4", "2", "-"])
+            must(["trunc", "4"])
+            must(["pushc", "4", "0", "-"])
+            if how == "copyempty":
+                must(["initc", 0, "5", H(e), "0", "-"])
+                must(["copy", "4", "5"])
+                must(["reset", "5"])
+                must(["abandon", "5"])
+            else:
+                must({"resize0": ["resize", "4", "0", "-"], "rewind0": ["rewind", "4", "0"], "reset": ["reset", "4"]}[how])
+        must(["destroy", "4", "1"])
         g.teardown()
         out.append((g.ops, g.exp))
     return out
@@ -859,6 +1083,9 @@ def run(ctx):
     if rc == 124:
         err += "\n[the harness did not finish within the time limit: the call after the last complete output line does not return]"
     impl = [l for l in impl if l != ""]
+    # the released-state suffix is judged by the reference alone; the part in front of it is what model and reference predict
+    extra = [l.split(" | ", 1)[1] if " | " in l else None for l in impl]
+    impl = [l.split(" | ", 1)[0] for l in impl]
     ctx.log("harness run done (exit %s)" % rc)
     try:
         mexe = ctx.model("c08")
@@ -871,8 +1098,11 @@ def run(ctx):
         model = None
     ctx.log("model run done")
     io = split_outputs(impl, hists)
+    xo = split_outputs(extra, hists)
+    nrel = 0
     mo = split_outputs(model, hists) if model is not None else None
     dist, nviol, ndis, nops = {}, 0, 0, 0
+    cands = []          # failing histories; the three shortest are reported
     sizes = []
     ended = False
     for hi, (ops, exp) in enumerate(hists):
@@ -886,16 +1116,35 @@ def run(ctx):
         want = ["H"] + exp + ["status 0"]
         got = io[hi]
         for li in range(len(want)):
+            rel = None
+            if got[li] == want[li] and 0 < li <= len(ops) and exp.st is not None:
+                nrel += 1
+                rel = judge_released(xo[hi][li] or "", exp.st[li - 1])
+            if rel is not None:
+                nviol += 1
+
+                def report(ops=ops, li=li, rel=rel, x=xo[hi][li]):
+                    upto = ops[:li]
+                    key = "hist-%s" % vlib.hashlib.md5(repr(upto).encode()).hexdigest()[:12]
+                    tail = " ; ".join(" ".join(t)[:28] for t in upto[-4:])
+                    ctx.violation(key, "history of %d ops ending [%s]: counts and bytes right, released state wrong: %s "
+                                  "[libsc: status h:owner/view:NULL/Ptr:Zero/Alloc = %s]" % (len(upto), tail, rel, x),
+                                  dict(ops=[" ".join(t) for t in upto], line=li, impl=x, expected=rel, stderr=""))
+                cands.append((li, len(cands), report))
+                ended = any(x is None for x in got)
+                break
             if got[li] != want[li]:
                 nviol += 1
-                if nviol <= 3:
+
+                def report(ops=ops, li=li, g=got[li], w=want[li]):
                     upto = ops[:li] if li <= len(ops) else ops
-                    what = "end of output (crash or call that does not return)" if got[li] is None else got[li][:200]
-                    detail = err[-1200:] if got[li] is None else ""
+                    what = "end of output (crash or call that does not return)" if g is None else g[:200]
+                    detail = err[-1200:] if g is None else ""
                     key = "hist-%s" % vlib.hashlib.md5(repr(upto).encode()).hexdigest()[:12]
                     ctx.violation(key, "history of %d ops: after op #%d (%s) libsc shows [%s], the reference sequence gives [%s] %s" % (
-                        len(upto), li, " ".join(ops[li - 1])[:80] if 0 < li <= len(ops) else "E", what, want[li][:200], detail),
-                        dict(ops=[" ".join(t) for t in upto], line=li, impl=got[li], expected=want[li], stderr=detail))
+                        len(upto), li, " ".join(ops[li - 1])[:80] if 0 < li <= len(ops) else "E", what, w[:200], detail),
+                        dict(ops=[" ".join(t) for t in upto], line=li, impl=g, expected=w, stderr=detail))
+                cands.append((li, len(cands), report))
                 # the harness died later in this same history: after a first difference the following calls need not be legal any more
                 ended = any(x is None for x in got)
                 break
@@ -909,11 +1158,14 @@ def run(ctx):
                             hi, li, " ".join(ops[li - 1])[:80] if 0 < li <= len(ops) else "E", str(got[li])[:160], str(m[li])[:160],
                             " | ".join(" ".join(t)[:60] for t in ops[:li][-12:])))
                     break
+    for _, _, report in sorted(cands, key=lambda c: c[:2])[:3]:
+        report()
     if rc != 0 and nviol == 0:
         ctx.tie_broken("c08 harness run", "exit %s: %s" % (rc, err[-1500:]))
     ctx.cov["disagreements_checked"] = nops
     ctx.cov["rule"] = ("a case is one history (create ... teardown) of array operations; every line (result of the call + count and bytes of "
-                       "ALL live arrays) is compared between libsc, the extracted model and the reference sequence; non-trivial = more than 2 "
+                       "ALL live arrays) is compared between libsc, the extracted model and the reference sequence, and the released state of all live arrays "
+                       "+ sc_memory_status after every call is judged by the reference alone; non-trivial = more than 2 "
                        "operations; distinct = distinct operation lists")
     ctx.cov["exhaustive"] = False
     ctx.notes["op_distribution"] = dist
@@ -923,14 +1175,23 @@ def run(ctx):
                                        "element sizes 1,3,8,24) + %d scripted histories, one per element size class (%s): arrays of 2, 3, 5 elements that "
                                        "differ in every byte position, permuted by one long cycle / reversal / one exchange with keepperm 0 and 1 (the kept "
                                        "permutation used twice), then is_sorted, sort, bsearch (hit / miss in the last byte), copy, is_equal (equal / last byte "
-                                       "differs), uniq with a duplicate, copy_into, split + seeded random legal histories: 60%% up to 600 bytes, 30%% up to 5000, "
+                                       "differs), uniq with a duplicate, copy_into, split; then for each reset-equivalent (resize 0, rewind 0, reset, copy from an empty array) "
+                                       "x each way of emptying without freeing (truncate, pops, rewind 1 + pop, none): init, 2 pushes, empty, release, abandon the "
+                                       "struct, init again; the same on a created array reused after each release (resize to the unchanged count, push_count 0 in between) "
+                                       "+ seeded random legal histories: 60%% up to 600 bytes, 30%% up to 5000, "
                                        "10%% up to 70000 bytes per array; element sizes 1..24 (70%%) or one of %s (30%%, where two elements fit); permcase / "
-                                       "sortcase steps on a fresh array of any size class with >= 2 elements and a non-identity permutation; "
+                                       "sortcase steps on a fresh array of any size class with >= 2 elements and a non-identity permutation; release steps (empty an owner by "
+                                       "truncate / pops / rewind to a small count / count-preserving calls, THEN resize 0 | rewind 0 | reset | copy from an empty owner, "
+                                       "released array or empty view | destroy; afterwards abandon + init / init_count on the same struct, or reuse, or release again); "
+                                       "at the end of every history each array is released by a randomly chosen documented way and static structs are abandoned; "
+                                       "after EVERY call the harness also prints owner/view, array == NULL, byte_alloc == 0 of all live arrays and sc_memory_status, "
+                                       "judged by the reference (storage iff grown since the last reset-equivalent; live blocks = created structs + arrays with storage); "
                                        "55%% of the resize/push_count targets sit at 2^k/esz + {-1,0,1,2}; runs of "
                                        "pops, rewind/truncate then push; views, views of views, reshape, init_data at byte offsets; overlapping "
                                        "move_part; byte alphabets 2,3,4,16,256 (duplicates for uniq/bsearch/is_equal); teardown at the end of every history"
                                        % (len(SIZE_CLASSES), ",".join(str(e) for e in SIZE_CLASSES), ",".join(str(e) for e in BIGSIZES)))
     ctx.notes["model_disagreements"] = ndis
+    ctx.notes["released_state_judgements"] = nrel
     for ops, _ in hists[nscripted + len(SIZE_CLASSES):nscripted + len(SIZE_CLASSES) + 5]:
         ctx.sample({"history": " ; ".join(" ".join(t)[:40] for t in ops[:6])})
     ctx.cov["trusted_base"] = ["tools/c2g translator (+ slicelib conventions for Gen/ArrayPermC08.v: memcpy calls as ghost outputs in source order, newind[x] as a location) and clang-14's JSON AST for Gen/Array.v (exercised by the correspondence run: the model computes every decision with the generated functions)",
